@@ -16,12 +16,16 @@
 //   abs <t> <x>   idiv <t> <x> <y>   ipow <t> <b> <e>   ipow2 <t> <e>   ilog2 <t> <x>
 //   cmp <tt> <tu> <t> <u>     cmp_equal cmp_not_equal cmp_less cmp_greater cmp_less_equal cmp_greater_equal
 //   conv <to> <from> <x>      in_range<To> saturate_cast<To>
+//   ctbits <ut> <10 values>  the legs of `bits` for the fixed table of ct_bits<T>::vals, joined by " ; ", with the impl leg
+//                             evaluated by the CONSTANT EVALUATOR (constexpr table: the is_constant_evaluated() branch
+//                             of popcount, and any UB would be a compile error); the values are passed for the model
 //   row <lo> <hi> <op> <args...>   runs "<op> <args...> y" for every y in [lo, hi]; the legs are the
 //                             per-y legs joined by " ; "
 //   rox <lo> <hi> <op> <args...> <last>   the same with y inserted before the last argument
 #include "common.hpp"
 
 #include <algorithm>
+#include <array>
 #include <arpa/inet.h>
 #include <bit>
 #include <limits>
@@ -116,6 +120,44 @@ static i128 igcd(i128 a, i128 b)
     return a;
 }
 
+// ---- compile-time evaluated table (constant-evaluation path of the <bit> functions) --------------------------
+template <typename T>
+struct ct_bits {
+    static constexpr int N = 10;
+    static constexpr T mx = std::numeric_limits<T>::max();
+    static constexpr T vals[N] = {T(0), T(1), T(2), T(3), T(5), T(mx / 3), T(mx / 2), T(mx / 2 + 1), T(mx - 1), mx};
+    struct R {
+        int pc, pcf, clz, clo, ctz, cto, bw;
+        T bf;
+        bool hsb;
+        T bc;
+        bool bc_ok;
+    };
+    static constexpr R eval(T x)
+    {
+        R r{};
+        r.pc = etl::popcount(x);
+        r.pcf = etl::detail::popcount_fallback(x);
+        r.clz = etl::countl_zero(x);
+        r.clo = etl::countl_one(x);
+        r.ctz = etl::countr_zero(x);
+        r.cto = etl::countr_one(x);
+        r.bw = etl::bit_width(x);
+        r.bf = etl::bit_floor(x);
+        r.hsb = etl::has_single_bit(x);
+        r.bc_ok = x <= T(mx / 2 + 1);
+        r.bc = r.bc_ok ? etl::bit_ceil(x) : T(0);
+        return r;
+    }
+    static constexpr std::array<R, N> make()
+    {
+        std::array<R, N> t{};
+        for (int i = 0; i < N; ++i) { t[static_cast<std::size_t>(i)] = eval(vals[i]); }
+        return t;
+    }
+    static constexpr std::array<R, N> table = make();   // evaluated at compile time
+};
+
 // ---- single cases -----------------------------------------------------------------------
 static bool run_one(std::string const& op, Toks& in, Out& impl, Out& ref)
 {
@@ -137,6 +179,30 @@ static bool run_one(std::string const& op, Toks& in, Out& impl, Out& ref)
                 .num(std::countr_zero(x)).num(std::countr_one(x)).num(static_cast<i64>(std::bit_width(x)));
             put(ref, std::bit_floor(x)).b(std::has_single_bit(x));
             if (ceil_ok) { put(ref, std::bit_ceil(x)); } else { ref.tok("-"); }
+        });
+    }
+    if (op == "ctbits") {
+        auto t = in.str();
+        std::vector<std::string> vs;
+        while (in.more()) { vs.push_back(in.str()); }
+        return with_unsigned(t, [&](auto tg) {
+            using T = typename decltype(tg)::type;
+            using C = ct_bits<T>;
+            bool same = static_cast<int>(vs.size()) == C::N;
+            for (int i = 0; same && i < C::N; ++i) { same = parse<T>(vs[static_cast<std::size_t>(i)]) == C::vals[i]; }
+            if (!same) { impl.tok("table-mismatch"); ref.tok("table-mismatch-ref"); return; }
+            for (int i = 0; i < C::N; ++i) {
+                auto const& r = C::table[static_cast<std::size_t>(i)];
+                T x = C::vals[i];
+                if (i != 0) { impl.tok(";"); ref.tok(";"); }
+                impl.tok("ok").num(r.pc).num(r.pcf).num(r.clz).num(r.clo).num(r.ctz).num(r.cto).num(r.bw);
+                put(impl, r.bf).b(r.hsb);
+                if (r.bc_ok) { put(impl, r.bc); } else { impl.tok("-"); }
+                ref.tok("ok").num(std::popcount(x)).num(std::popcount(x)).num(std::countl_zero(x)).num(std::countl_one(x))
+                    .num(std::countr_zero(x)).num(std::countr_one(x)).num(static_cast<i64>(std::bit_width(x)));
+                put(ref, std::bit_floor(x)).b(std::has_single_bit(x));
+                if (r.bc_ok) { put(ref, std::bit_ceil(x)); } else { ref.tok("-"); }
+            }
         });
     }
     if (op == "rot") {
